@@ -70,6 +70,7 @@ def St.all (s : St) : List Frame := s.frames ++ (s.zombies ++ s.gone)
 def Ctl.exiting : Ctl → Bool
   | .exit _ => true
   | .waitCleanup _ _ => true
+  | .waitBack _ => true
   | .dead => true
   | _ => false
 
@@ -399,15 +400,28 @@ theorem Inv.ctlOnly {s s' : St} (h : Inv s) (toks : List Out)
       have : s'.ctl ≠ .finished := by intro hc; rw [hc] at hfin; cases hfin
       simp [hr, hnf, this])
 
-theorem Inv.leafDone {s : St} (h : Inv s) (a : Bool) (o : Outcome) (hc : s.ctl.exiting = false)
-    (hnf : s.ctl ≠ .finished) : Inv (leafDone s a o) := by
-  unfold Coro.leafDone
-  split
-  · exact h.ctlOnly [] rfl rfl rfl rfl (by simp) (by simp) rfl (fun _ => hc) rfl hnf
-  · exact h.ctlOnly [] rfl rfl rfl rfl (by simp) (by simp) rfl (fun _ => hc) rfl hnf
+theorem Inv.leafDone' {s : St} (h : Inv s) (o : Outcome) (hc : s.ctl.exiting = false)
+    (hnf : s.ctl ≠ .finished) : Inv { s with ctl := .resume o } :=
+  h.ctlOnly [] rfl rfl rfl rfl (by simp) (by simp) rfl (fun _ => hc) rfl hnf
 
 theorem Inv.emitNone {s : St} (h : Inv s) (x : Out) (hx : x.frame = none) (hr : rootTrace [x] = []) : Inv (emit s x) :=
   h.same [x] rfl rfl rfl rfl rfl (by simpa using hx) (fun he => Or.inl he) h.fin (by rw [hr]; simp; rfl)
+
+theorem Inv.schedHop {s : St} (h : Inv s) (k : Nat) (o : Outcome) (hc : s.ctl.exiting = false)
+    (hnf : s.ctl ≠ .finished) : Inv (schedHop s k o) := by
+  have h1 := h.emitNone (.sched k) rfl rfl
+  unfold Coro.schedHop
+  simp only []
+  split
+  · exact h1.ctlOnly [] rfl rfl rfl rfl (by simp) (by simp) rfl (fun _ => hc) rfl hnf
+  · exact h1.ctlOnly [] rfl rfl rfl rfl (by simp) (by simp) rfl (fun _ => hc) rfl hnf
+
+theorem Inv.leafDone {s : St} (h : Inv s) (a : Bool) (k : Nat) (o : Outcome) (hc : s.ctl.exiting = false)
+    (hnf : s.ctl ≠ .finished) : Inv (leafDone s a k o) := by
+  unfold Coro.leafDone
+  split
+  · exact h.leafDone' o hc hnf
+  · exact h.schedHop k o hc hnf
 
 theorem Inv.rootDone {s : St} (h : Inv s) (o : Outcome) (hf : s.frames = []) (hnf : s.ctl ≠ .finished) :
     Inv (rootDone s o) := by
@@ -446,7 +460,7 @@ theorem Inv.step {s : St} (h : Inv s) : Inv (step specs s) := by
           (by simp) (by simp [regTrace]) (by simp [cleanupTraceOf]) (by simp [deadCount, deadTrace])
           hhist (fun _ => hran) (by rw [hc]; rfl) (by simp [rootTrace])
     · rename_i a l k hk
-      exact h.updTop (fr' := { fr with kont := k, cleanups := (a, l) :: fr.cleanups, regd := a :: fr.regd })
+      exact h.updTop (fr' := { fr with kont := k, cleanups := (a, ckOf l) :: fr.cleanups, regd := a :: fr.regd })
           [.reg fr.id a] hf0 rfl rfl rfl rfl rfl rfl
           (by simp [Out.frame]) (by simp [regTrace]) (by simp [cleanupTraceOf]) (by simp [deadCount, deadTrace])
           (by rw [hran] at hhist ⊢; simpa using hhist) (fun _ => hran) (by simp [emit, hc, Ctl.rootIsDone]) (by simp [rootTrace])
@@ -458,19 +472,32 @@ theorem Inv.step {s : St} (h : Inv s) : Inv (step specs s) := by
       have hc1 : (emit { s with frames := { fr with kont := k, catching := t } :: rest } (.leafStart i s.srcStopped)).ctl = .exec := hc
       simp only []
       split
-      · exact h1.leafDone _ _ (by rw [hc1]; rfl) (by rw [hc1]; simp)
+      · exact h1.leafDone _ _ _ (by rw [hc1]; rfl) (by rw [hc1]; simp)
       · split
         · have h2 := h1.emitNone (.leafStop i) rfl rfl
           split
           · exact h2.ctlOnly [] rfl rfl rfl rfl (by simp) (by simp) rfl (fun _ => by simp [emit, hc, Ctl.exiting]) rfl
               (by simp [emit, hc])
-          · exact h2.leafDone _ _ (by simp [emit, hc, Ctl.exiting]) (by simp [emit, hc])
+          · exact h2.leafDone _ _ _ (by simp [emit, hc, Ctl.exiting]) (by simp [emit, hc])
         · exact h1.ctlOnly [] rfl rfl rfl rfl (by simp) (by simp) rfl (fun _ => by rw [hc1]; rfl) rfl (by rw [hc1]; simp)
     · rename_i p t k hk
       exact h.push (fr' := { fr with kont := k, catching := t })
-        (child := { id := s.nextId, kont := p, acc := 0, cleanups := [], catching := false, live := true, regd := [], ran := [] })
+        (child := { id := s.nextId, kont := p, acc := 0, cleanups := [], catching := false, live := true, sched := fr.sched, resched := false, regd := [], ran := [] })
         [.frameStart s.nextId] hf0 rfl rfl rfl rfl rfl (by simp [Out.frame]) rfl rfl rfl rfl rfl rfl rfl rfl
         hne (by simp [emit, hc, Ctl.rootIsDone]) (by simp [rootTrace])
+    · rename_i n k hk
+      split
+      · have h1 : Inv { s with frames := { fr with kont := k, catching := false, sched := n } :: rest } :=
+          h.updTop (fr' := { fr with kont := k, catching := false, sched := n }) [] hf0 rfl rfl rfl rfl (by simp) rfl
+            (by simp) (by simp [regTrace]) (by simp [cleanupTraceOf]) (by simp [deadCount, deadTrace])
+            hhist (fun _ => hran) (by rw [hc]; rfl) (by simp [rootTrace])
+        exact h1.schedHop _ _ (by simp [hc, Ctl.exiting]) (by simp [hc])
+      · have h1 : Inv (emit { s with frames := { fr with kont := k, catching := false, sched := n, resched := true, cleanups := (0, CK.back fr.sched) :: fr.cleanups, regd := 0 :: fr.regd } :: rest } (.reg fr.id 0)) :=
+          h.updTop (fr' := { fr with kont := k, catching := false, sched := n, resched := true, cleanups := (0, CK.back fr.sched) :: fr.cleanups, regd := 0 :: fr.regd })
+            [.reg fr.id 0] hf0 rfl rfl rfl rfl rfl rfl
+            (by simp [Out.frame]) (by simp [regTrace]) (by simp [cleanupTraceOf]) (by simp [deadCount, deadTrace])
+            (by rw [hran] at hhist ⊢; simpa using hhist) (fun _ => hran) (by simp [emit, hc, Ctl.rootIsDone]) (by simp [rootTrace])
+        exact h1.schedHop _ _ (by simp [emit, hc, Ctl.exiting]) (by simp [emit, hc])
   · -- resume
     rename_i o fr rest hc hf0
     have hne : s.ctl.exiting = false := by rw [hc]; rfl
@@ -497,7 +524,7 @@ theorem Inv.step {s : St} (h : Inv s) : Inv (step specs s) := by
     have hnf : s.ctl ≠ .finished := by rw [hc]; simp
     unfold exitStep
     split
-    · rename_i a l cs hcs
+    · rename_i a ck cs hcs
       have h1 : Inv (emit { s with frames := { fr with cleanups := cs, ran := fr.ran ++ [a] } :: rest } (.cleanup fr.id a)) :=
         h.updTop (fr' := { fr with cleanups := cs, ran := fr.ran ++ [a] }) [.cleanup fr.id a] hf0 rfl rfl rfl rfl rfl rfl
           (by simp [Out.frame]) (by simp [regTrace]) (by simp [cleanupTraceOf]) (by simp [deadCount, deadTrace])
@@ -506,11 +533,18 @@ theorem Inv.step {s : St} (h : Inv s) : Inv (step specs s) := by
       simp only []
       split
       · exact h1
-      · have h2 := h1.emitNone (.leafStart l false) rfl rfl
+      · rename_i l
+        have h2 := h1.emitNone (.leafStart l false) rfl rfl
         split
         · exact h2
         · exact h2.same [.terminate] rfl rfl rfl rfl rfl (by simp [Out.frame]) (fun he => by cases he) (fun he => by cases he)
             (by simp [emit, hc, rootTrace])
+        · exact h2.same [] rfl rfl rfl rfl (by simp) (by simp) (fun he => by cases he) (fun he => by cases he)
+            (by simp [emit, hc, rootTrace])
+      · rename_i n
+        have h2 := h1.emitNone (.sched n) rfl rfl
+        split
+        · exact h2
         · exact h2.same [] rfl rfl rfl rfl (by simp) (by simp) (fun he => by cases he) (fun he => by cases he)
             (by simp [emit, hc, rootTrace])
     · rename_i hcs
@@ -539,7 +573,7 @@ theorem Inv.iter {s : St} (h : Inv s) (n : Nat) : Inv (iter specs n s) := by
 theorem Inv.settle {s : St} (h : Inv s) : Inv (settle specs s) := by
   rw [settle_eq_iter]; exact h.iter specs _
 
-theorem Inv.init (p : Prog) (b : Bool) : Inv (St.init p b) := by
+theorem Inv.init (p : Prog) (b : Bool) (st : Bool := true) : Inv (St.init p b st) := by
   constructor <;> simp [St.init, St.all, rootFrame, Ctl.exiting, Ctl.rootIsDone, rootTrace]
   · exact ⟨rfl, rfl, rfl⟩
 
@@ -552,7 +586,7 @@ theorem Inv.deliverStop {s : St} (h : Inv s) : Inv (deliverStop specs s) := by
     have h2 := h1.emitNone (.leafStop i) rfl rfl
     have hc2 : (emit { s with srcStopped := true } (.leafStop i)).ctl = .waitLeaf i := hc
     split
-    · exact h2.leafDone _ _ (by rw [hc2]; rfl) (by rw [hc2]; simp)
+    · exact h2.leafDone _ _ _ (by rw [hc2]; rfl) (by rw [hc2]; simp)
     · exact h2
   · exact h1
 
@@ -579,9 +613,11 @@ theorem Inv.onStop {s : St} (h : Inv s) : Inv (onStop specs s) := by
     simp only []
     split
     · exact h1
-    · split
-      · exact ((Inv.deliverStop specs (h1.flags (s' := { s with rootStopped := true, stopOp := true }) rfl rfl rfl rfl rfl rfl)).settle specs).stopOpDone
-      · exact h1.flags rfl rfl rfl rfl rfl rfl
+    · have h2 : Inv (emit { s with rootStopped := true, stopOp := true } (.sched 0)) :=
+        (h1.flags (s' := { s with rootStopped := true, stopOp := true }) rfl rfl rfl rfl rfl rfl).emitNone _ rfl rfl
+      split
+      · exact ((Inv.deliverStop specs h2).settle specs).stopOpDone
+      · exact h2.flags rfl rfl rfl rfl rfl rfl
 
 theorem Inv.onStart {s : St} (h : Inv s) (hc : s.ctl = .idle) : Inv (onStart specs s) := by
   unfold Coro.onStart
@@ -598,10 +634,11 @@ theorem Inv.onStart {s : St} (h : Inv s) (hc : s.ctl = .idle) : Inv (onStart spe
       exact h1.updTop (fr' := { fr with live := true }) [.frameStart 0] hf (by simp [emit, startFrames]) rfl rfl rfl rfl rfl
         (by simp [Out.frame]) (by simp [regTrace]) (by simp [cleanupTraceOf]) (by simp [deadCount, deadTrace])
         (h1.hist fr (by rw [hf]; simp)) (fun _ => h1.body_head hne fr (by rw [hf]; simp)) rfl (by simp [rootTrace])
+  have he : Inv (emit s (.sched 0)) := h.emitNone _ rfl rfl
   split
   · split
-    · exact key _ (h.flags rfl rfl rfl rfl rfl rfl) hc
-    · exact key _ (h.flags rfl rfl rfl rfl rfl rfl) hc
+    · exact key _ (he.flags rfl rfl rfl rfl rfl rfl) hc
+    · exact key _ (he.flags rfl rfl rfl rfl rfl rfl) hc
   · exact key _ h hc
 
 theorem Inv.onRun {s : St} (h : Inv s) : Inv (onRun specs s) := by
@@ -615,6 +652,13 @@ theorem Inv.onRun {s : St} (h : Inv s) : Inv (onRun specs s) := by
       exact h.ctlOnly [] rfl rfl rfl rfl (by simp) (by simp) rfl (fun _ => by rw [hc]; rfl) rfl (by rw [hc]; simp)
     · exact h.flags rfl rfl rfl rfl rfl rfl
   · rename_i q hq
+    split
+    · rename_i o hc
+      apply Inv.settle
+      exact h.same [] rfl rfl rfl rfl (by simp) (by simp) (fun he => by cases he) (fun he => by cases he)
+        (by simp [hc, rootTrace])
+    · exact h.flags rfl rfl rfl rfl rfl rfl
+  · rename_i q hq
     exact ((Inv.deliverStop specs (h.flags (s' := { s with queue := q }) rfl rfl rfl rfl rfl rfl)).settle specs).stopOpDone
 
 theorem Inv.onComplete {s : St} (h : Inv s) (i : Nat) (o : Outcome) : Inv (onComplete specs s i o) := by
@@ -622,7 +666,7 @@ theorem Inv.onComplete {s : St} (h : Inv s) (i : Nat) (o : Outcome) : Inv (onCom
   split
   · rename_i j hc
     split
-    · exact (h.leafDone _ _ (by rw [hc]; rfl) (by rw [hc]; simp)).settle specs
+    · exact (h.leafDone _ _ _ (by rw [hc]; rfl) (by rw [hc]; simp)).settle specs
     · exact h
   · rename_i j x hc
     split
@@ -684,19 +728,60 @@ theorem destroyFrames_spec (l : List Frame) : ∀ s : St,
     · intro g
       rw [(h8 g).1, (h8 g).2]; split <;> simp [emit, regTrace, cleanupTraceOf]
 
+theorem schedHop_outs_prefix (s : St) (k : Nat) (o : Outcome) : s.outs <+: (schedHop s k o).outs := by
+  unfold schedHop; simp only []; split <;> simp [emit]
+
+theorem leafDone_outs_prefix (s : St) (a : Bool) (k : Nat) (o : Outcome) : s.outs <+: (leafDone s a k o).outs := by
+  unfold leafDone; split
+  · exact List.prefix_refl _
+  · exact schedHop_outs_prefix _ _ _
+
+/-- a stop request delivered to the thunk's source while the innermost task is suspended on leaf `i`: the
+    leaf's stop callback is the first thing that happens -/
+theorem deliverStop_waitLeaf_prefix (s : St) (i : Nat) (hc : s.ctl = .waitLeaf i) :
+    (s.outs ++ [.leafStop i]) <+: (deliverStop specs s).outs := by
+  simp only [deliverStop, hc]
+  split
+  · exact leafDone_outs_prefix (emit { s with srcStopped := true } (.leafStop i)) _ _ _
+  · exact List.prefix_refl _
+
 theorem step_outs_prefix (s : St) : s.outs <+: (step specs s).outs := by
-  have hl : ∀ (s : St) (a : Bool) (o : Outcome), (leafDone s a o).outs = s.outs := by
-    intro s a o; unfold leafDone; split <;> rfl
+  have hsh := schedHop_outs_prefix
+  have hl := leafDone_outs_prefix
   have hr : ∀ (s : St) (o : Outcome), s.outs <+: (rootDone s o).outs := by
     intro s o; unfold rootDone; split <;> simp [emit]
+  have he : ∀ (s : St) (x : Out), s.outs <+: (emit s x).outs := by intro s x; simp [emit]
   unfold step
   split
   · unfold execStep
-    split <;> (try split) <;> (try split) <;> (try split) <;> simp [beginExit, emit, hl, List.append_assoc]
+    split
+    · simp [beginExit, emit]
+    · simp [beginExit, emit]
+    · simp [beginExit, emit]
+    · split <;> simp
+    · simp [emit]
+    · simp only []
+      split
+      · refine List.IsPrefix.trans ?_ (hl _ _ _ _); simp [emit]
+      · split
+        · split
+          · simp [emit, List.append_assoc]
+          · refine List.IsPrefix.trans ?_ (hl _ _ _ _); simp [emit, List.append_assoc]
+        · simp [emit]
+    · simp [emit]
+    · split
+      · simp only []; refine List.IsPrefix.trans ?_ (hsh _ _ _); simp
+      · simp only []; refine List.IsPrefix.trans ?_ (hsh _ _ _); simp [emit]
   · unfold resumeStep
     split <;> (try split) <;> simp [beginExit, emit]
   · unfold exitStep
-    split <;> (try split) <;> (try split) <;> simp [emit, List.append_assoc]
+    split
+    · simp only []
+      split
+      · simp [emit]
+      · split <;> simp [emit, List.append_assoc]
+      · split <;> simp [emit, List.append_assoc]
+    · split <;> simp [emit]
   · exact hr _ _
   · exact hr _ _
   · exact List.prefix_refl _
